@@ -298,6 +298,37 @@ def gen_cleanup_refresh(cls):
     return out + "Definition src_refresh : @M K A :=\n  " + term + ".\n"
 
 
+def gen_clone_verify(cls):
+    f = method(cls, "clone", [])
+    want = ["other = Manager()", "other.containers.update(self.containers)",
+            "for task in self.tasks.values():\n    other.register(task)", "other.cleanup()", "return other"]
+    if not same_body(f, want):
+        raise Unsupported("Manager.clone changed:\n" + "\n".join(body_src(f)))
+    out = ("(* clone(): a new manager (containers are not part of the model), every task of self registered in it, cleanup *)\n"
+           "Definition src_clone (self : @mgr K A) : res (@mgr K A) :=\n"
+           "  seq (tasks_loop (m_tasks self) (fun task => src_register task)) src_cleanup empty_mgr.\n\n")
+    f = next((n for n in cls.body if isinstance(n, ast.FunctionDef) and n.name == "verify"), None)
+    if f is None or [a.arg for a in f.args.args] != ["self", "dcts"] or ast.unparse(f.args.defaults[0]) != "('rdeps', 'rtasks', 'deptasks', 'tartasks')":
+        raise Unsupported("signature of Manager.verify changed")
+    want = ["self.cleanup()", "other = self.clone()",
+            "for dct in dcts:\n    odct = getattr(other, dct)\n    sdct = getattr(self, dct)\n    for kk, ss in list(sdct.items()):\n"
+            "        if set(ss) != set(odct[kk]):\n            print(f'{dct}[{kk}] not consistent')\n"
+            "            print(f'{dct}[{kk}] self - check:', set(ss) - set(odct[kk]))\n"
+            "            print(f'{dct}[{kk}] check - self:', set(odct[kk]) - set(ss))\n"
+            "            raise ValueError(f'{self} is not consistent in {dct}[{kk}]')"]
+    if not same_body(f, want):
+        raise Unsupported("Manager.verify changed:\n" + "\n".join(body_src(f)))
+    out += ("(* verify(): cleanup, clone, then for each of the four indices every entry of self must hold the same key SET as the\n"
+            "   clone's entry (odct[kk] is a defaultdict read on the clone, which is discarded) *)\n"
+            "Definition src_verify (self : @mgr K A) : res (@mgr K A) :=\n"
+            "  match src_cleanup self with\n  | Err e => Err e\n  | Ok self1 =>\n"
+            "      match src_clone self1 with\n      | Err e => Err e\n      | Ok other =>\n"
+            "          if forallb (fun dct => forallb (fun p => keys_equiv eqb (snd p) (ipeek eqb (fst p) (ix_get dct other))) (ix_get dct self1))\n"
+            "                     [IRdeps; IRtasks; IDeptasks; ITartasks]\n"
+            "          then Ok self1 else Err EValue\n      end\n  end.\n")
+    return out
+
+
 def gen_find_tasks(cls):
     f = method(cls, "find_tasks", ["start_deps"])
     body = [ast.unparse(x) for x in f.body if not is_docstring_or_log(x)]
@@ -541,6 +572,7 @@ def main():
         parts.append(gen_find_taskids(cls))
         parts.append(gen_find_tasks(cls))
         parts.append(gen_cleanup_refresh(cls))
+        parts.append(gen_clone_verify(cls))
         data = gen_data(tasks)
         sorting = gen_sorting()
     except (Unsupported, OSError, SyntaxError) as e:
